@@ -246,7 +246,7 @@ def gen_region_sets(ctx, count):
     return out
 
 
-def canon_sets(ctx, count):
+def canon_sets(ctx, count, big=True):
     """canonical (sorted, non-adjacent, non-empty, below 4 GiB) region lists + start address"""
     rng = ctx.rng
     out = []
@@ -259,7 +259,8 @@ def canon_sets(ctx, count):
         if len(out) >= count:
             break
     big = [(0xF003, [(i * 7 + 1) % 256 for i in range(0x10000 + 50)])]
-    out.append((big, 0x100))
+    if big:
+        out.append((big, 0x100))
     out.append(([(0xFFFFFFE0, rbytes(rng, 32))], 5))
     out.append(([(0xFFFF, [1]), (0x1FFFE, [2, 3, 4]), (0x2FFFD, rbytes(rng, 70))], 0))
     return out
@@ -314,7 +315,7 @@ def oracle_sweep(ctx, hx, thorough):
     for canon, start in canon_sets(ctx, 80 if not thorough else 600):
         n += 1
         out = impl_save(hx, canon, start)
-        rec = {'fn': 'HexFile.save', 'regions': [[a, d if len(d) <= 80 else 'bytes x%d' % len(d)] for a, d in canon],
+        rec = {'fn': 'HexFile.save', 'regions': [[a, d if len(d) <= 400 else 'bytes x%d: (7*i+1)%%256' % len(d)] for a, d in canon],
                'start_address': start,
                'how_to_replay': 'build HexFile with these regions (add_region) and start_address, save to StringIO, '
                                 'read with an independent Intel HEX reader / HexFile.load'}
@@ -371,7 +372,7 @@ def run(ctx):
     self_test_reference()
     hx = load_impl()
     t0 = time.time()
-    ctx.build(['Proofs/C18_hexfile.vo', 'Proofs/C18_refuted.vo'])
+    ctx.build(['Proofs/C18_hexfile.vo', 'Proofs/C18_refuted.vo', 'Proofs/C18_bounded.vo'])
     tm['build'] = round(time.time() - t0, 1)
     t0 = time.time()
     ctx.check_props('Props/C18.v')
@@ -443,7 +444,7 @@ def run(ctx):
         # ---- 3. save / load / Coq reference reader on the real output
         scases, lcases, rcases, sinfo = [], [], [], []
         dist = {}
-        sets = canon_sets(ctx, 60 if not thorough else 400)
+        sets = canon_sets(ctx, 60 if not thorough else 400, big=thorough)   # the 64 KiB region: model side is slow, the oracle sees it
         # also non-canonical objects handed to save: empty regions, regions beyond 4 GiB
         sets += [([(0x10, [])], 0), ([(0xFFFFFFF0, rbytes(rng, 32))], 0), ([(0x100000000, [1, 2])], 0),
                  ([(0x1FFFF0000, [1])], 0), ([(5, [1])], 1 << 32), ([(5, [1])], -1)]
